@@ -2,6 +2,8 @@
 // Woven as a child module of `shm_header`.
 use super::*;
 use crate::ShmError;
+use std::mem::size_of;
+use std::sync::atomic;
 use std::sync::atomic::{AtomicU16, AtomicU32};
 
 fn kind(e: &ShmError) -> u8 {
